@@ -52,6 +52,8 @@ class EffectDomain(DefaultDomain):
             return "T" if value[1] else "F"
         if isinstance(value, tuple) and value[:1] in (("bound",), ("wobj",), ("new",)):
             return "T"
+        if value == ("set", ("empty",)):
+            return "F"
         if isinstance(value, tuple) and value[:1] in (("attr",), ("set",)):
             return "TF"
         if isinstance(value, tuple) and value[:1] == ("tuple",):
@@ -134,6 +136,10 @@ class EffectDomain(DefaultDomain):
                     return self._abs(pl * pr)
             except TypeError:
                 pass
+        if isinstance(left, tuple) and isinstance(right, tuple) and left[:1] == ("set",) and right[:1] == ("set",):
+            op = {ast.BitOr: "union", ast.Sub: "minus", ast.BitAnd: "meet"}.get(type(node.op))
+            if op:
+                return ("set", (op, left[1], right[1]))
         if isinstance(node.op, ast.Add):
             parts = []
             for v in (left, right):
@@ -496,9 +502,9 @@ class EffectDomain(DefaultDomain):
                 return [val(("set", ("empty",)), st)]
             return [r if r.kind == "exc" else val(("set", ("copy", r.value)), r.state) for r in interp.eval(call.args[0], st, fr)]
         f_ = call.func
-        if isinstance(f_, ast.Attribute) and isinstance(f_.value, ast.Name) and f_.attr in ("update", "difference_update", "add", "discard", "intersection_update", "copy", "union", "difference") and len(call.args) <= 1:
-            key = fr.local(f_.value.id)
-            cur = st.get(key, None)
+        if isinstance(f_, ast.Attribute) and isinstance(f_.value, (ast.Name, ast.Attribute)) and f_.attr in ("update", "difference_update", "add", "discard", "intersection_update", "copy", "union", "difference") and len(call.args) <= 1:
+            key = interp._key_of(f_.value, fr)   # a local, or an attribute of self kept in the state
+            cur = st.get(key, None) if key is not None else None
             if isinstance(cur, tuple) and cur[:1] == ("set",):
                 out = []
                 for r in interp.eval_list(list(call.args), st, fr):
@@ -607,6 +613,11 @@ class EffectDomain(DefaultDomain):
             pos = [a.value if isinstance(a, ast.Starred) else a for a in call.args]
             for r in interp.eval_list(pos + [k.value for k in call.keywords], st, fr):
                 out.append(r if r.kind == "exc" else val(("new", d.split(".")[-1], tuple(r.value[: len(pos)]), tuple((k.arg or "**", v) for k, v in zip(call.keywords, r.value[len(pos):]))), r.state))
+            return out
+        if d == "bool" and len(call.args) == 1 and not call.keywords:
+            out = []
+            for r in interp.eval(call.args[0], st, fr):
+                out.append(r if r.kind == "exc" else val({"T": TRUE, "F": FALSE}.get(self.truth(r.value), ("bool",)), r.state))
             return out
         if d in ("sorted", "reversed") and len(call.args) == 1 and not call.keywords:
             out = []
